@@ -38,13 +38,13 @@ def run(ctx):
     ctx.cov["rule"] = (
         "fault = SIGKILL of a child process that runs the real db.Open + StoreSignedVAA on a directory under .work, delivered after a "
         "PRNG-chosen number of acknowledged stores (0 .. quota, incl. before/right after Open and after the whole quota) plus a PRNG-chosen "
-        "delay of 0-1.5 ms; %d-cycle sequences on the SAME directory (quick: 2 directories x 8 cycles x up to 1200 stores over 900 identifiers "
-        "with a hot overwrite set, payloads 40 B - 64 KB; thorough: 3 directories x 40 cycles x 2500 stores, payloads up to 1.3 MB so the value "
+        "delay of 0-1.5 ms; %d-cycle sequences on the SAME directory (quick: 2 directories x 10 cycles x up to 1200 stores over 900 identifiers "
+        "with a hot overwrite set, payloads 40 B - 32 KB; thorough: 4 directories x 40 cycles x 1500 stores over 2500 identifiers, payloads up to 1.3 MB so the value "
         "log is used); after every kill a second child reopens the directory with db.Open and reads back EVERY identifier of the universe "
         "(that child is then either closed cleanly or SIGKILLed too). evaluations = reopen results + lookups judged by acceptKey; "
         "distinct_nontrivial = kill cycles where the kill hit mid-stream (the child had not finished its quota); the verdict per lookup is "
         "acceptKey(attempt history, answer): an acknowledged id must be found with bytes not older than its newest acknowledged store, any bytes "
-        "found must equal some store under that id, the store must reopen") % (8 if ctx.tier == "quick" else 40)
+        "found must equal some store under that id, the store must reopen") % (10 if ctx.tier == "quick" else 40)
     ctx.cov["trusted_base"] += [
         "harness/db/c16_crash_verif_test.go: the parent's bookkeeping (an attempt counts as acknowledged iff its complete 'ack' line reached the parent's pipe) "
         "and Whv/Driver/Crash.lean",
